@@ -153,7 +153,7 @@ func processClientHelloGM(c *Conn, hs *serverHandshakeStateGM) (isResume bool, e
 	// Edit:
 	//		通过获取证书方法获取 签名证书(含私钥)
 	//		通过获取证书方法获取 加密证书(含私钥)
-	sigCert, err := c.config.getCertificate(hs.clientHelloInfo())
+	sigCert, err := c.config.getGMSignCertificate(hs.clientHelloInfo())
 	if err != nil {
 		_ = c.sendAlert(alertInternalError)
 		return false, err
